@@ -329,7 +329,7 @@ func c06Lifetime(c *ev.Ctx, tbs []byte) {
 }
 
 func checkC06(c *ev.Ctx) {
-	c.Rule("the harness owns the device RSA key, so for any target encoded message EM it computes sig = EM^d mod N: device key sizes (quick 1024,2048; thorough +1032,1536,3072,4096) x hash{SHA-1,256,384,512} x identifier form{NULL,no NULL} x every byte position of EM x 7 replacement values; structural variants (shortened/short padding, 00 inside padding, missing separator, shifted T, foreign identifier, wrong digest, block types 00/02, sig+N); single-bit flips of signature and body (quick: 1024-bit key; thorough: 2048 too); every signature-algorithm label 0..16,99,-1 x EM hash; chain relations {pool root (2 roots), foreign CA, self-signed, expired, not yet valid, missing intermediate}; device key types {RSA, P-256, Ed25519} incl. slot certificates that are validly signed by the (CA-flagged) device key with ECDSA, Ed25519 or RSA-PSS; RSA public exponents {3,5,17,257,65539} (those invertible for the fixture primes) on the 1024-bit modulus (thorough: 2048 too), interleaved with the 65537 cases; one long-lived Attestor used before and after a device certificate's expiry / start of validity (real time, 5.5 s). 192 ordered pairs on one goroutine (6 predecessor kinds incl. non-RSA device keys x 4 hashes x {valid, signed over previous body || body}). Oracle: independent predicate on sig^e mod N. non-trivial = accepted attestation; distinct by (size,label,chain,variant)")
+	c.Rule("the harness owns the device RSA key, so for any target encoded message EM it computes sig = EM^d mod N: device key sizes (quick 1024,2048; thorough +1032,1536,3072,4096) x hash{SHA-1,256,384,512} x identifier form{NULL,no NULL} x every byte position of EM x 7 replacement values; structural variants (EVERY padding length 0..full-1 with the freed bytes after the digest / between identifier and digest / before the identifier (2048-bit quick: the 12 shortest, 12 longest and every 16th), shortened/short padding, 00 inside padding, missing separator, shifted T, foreign identifier, wrong digest, block types 00/02, sig+N); single-bit flips of signature and body (quick: 1024-bit key; thorough: 2048 too); every signature-algorithm label 0..16,99,-1 x EM hash; chain relations {pool root (2 roots), foreign CA, self-signed, expired, not yet valid, missing intermediate}; device key types {RSA, P-256, Ed25519} incl. slot certificates that are validly signed by the (CA-flagged) device key with ECDSA, Ed25519 or RSA-PSS; RSA public exponents {3,5,17,257,65539} (those invertible for the fixture primes) on the 1024-bit modulus (thorough: 2048 too), interleaved with the 65537 cases; one long-lived Attestor used before and after a device certificate's expiry / start of validity (real time, 5.5 s). 192 ordered pairs on one goroutine (6 predecessor kinds incl. non-RSA device keys x 4 hashes x {valid, signed over previous body || body}). Oracle: independent predicate on sig^e mod N. non-trivial = accepted attestation; distinct by (size,label,chain,variant)")
 	c.Assume("crypto/x509 chain building is trusted", "modular exponentiation by math/big")
 	t0 := time.Now()
 	c06W = c06Build()
@@ -428,6 +428,28 @@ func checkC06(c *ev.Ctx) {
 					em2 = append(em2, t...)
 					em2 = append(em2, make([]byte, short)...)
 					add(bits, labelOf[h], "root", em2, "T-shifted")
+				}
+				// every padding length from 0 up to one short of full length, the freed bytes placed (a) after the digest,
+				// (b) between the digest identifier and the digest, (c) between the separator and the identifier: a
+				// decoder that walks the block from the left, or probes only its two ends, accepts some of these
+				{
+					id, dg := c06DigestInfo[h][form], c06Digest(h, tbs)
+					full := k - 3 - len(t)
+					for ps := 0; ps < full; ps++ {
+						if bits > 1024 && !c.Thorough() && ps > 12 && ps < full-12 && ps%16 != 0 {
+							continue
+						}
+						free := full - ps
+						head := append(append([]byte{0, 1}, bytes.Repeat([]byte{0xff}, ps)...), 0)
+						for _, fill := range []byte{0xa5, 0x00} {
+							g := bytes.Repeat([]byte{fill}, free)
+							if fill == 0xa5 {
+								add(bits, labelOf[h], "root", bytes.Join([][]byte{head, id, dg, g}, nil), "short-padding:filler-after-digest")
+								add(bits, labelOf[h], "root", bytes.Join([][]byte{head, g, id, dg}, nil), "short-padding:filler-before-identifier")
+							}
+							add(bits, labelOf[h], "root", bytes.Join([][]byte{head, id, g, dg}, nil), "short-padding:filler-between-identifier-and-digest")
+						}
+					}
 				}
 				{ // fewer than 8 padding bytes cannot be full length for these sizes; emulate with 00 inside the padding
 					em := append([]byte{}, base...)
